@@ -116,6 +116,14 @@ def run_case(cls, params, rec):
 	desc = {"arch": dls.describe(spec), "A": A, "L": L, "n": n,
 		"n_shuffles": ns, "batch_size": params["batch_size"],
 		"target": target, "refs": params["refs"]}
+	if params.get("user_hooks"):
+		# the caller's own (harmless) forward hooks on the non-linear layers,
+		# e.g. an activation recorder: attributions must be unaffected
+		seen_ = []
+		for m_ in model.modules():
+			if isinstance(m_, dls.ACT_TYPES + (torch.nn.MaxPool1d,)):
+				m_.register_forward_hook(lambda mod, i, o: seen_.append(1))
+		rec.count("models_with_user_forward_hooks")
 	if params.get("prior_override_call"):
 		# call history: an earlier call overriding the rules of the built-in
 		# layers must not influence later ordinary calls
@@ -291,7 +299,7 @@ def gen_case(seed, k):
 		"refs": refs, "near": r.random() < 0.4, "iseed": r.randrange(10 ** 6),
 		"refkind": r.choice(["onehot", "onehot", "onehot", "zeros",
 		"uniform", "soft", "onehotN"]),
-		"prior_override_call": k % 5 == 2,
+		"prior_override_call": k % 5 == 2, "user_hooks": k % 6 == 4,
 		"random_state": r.randrange(1000)}
 
 
